@@ -1,6 +1,6 @@
 (** One entry point for the correspondence: checker id -> case -> verdict. *)
 From Coq Require Import ZArith List Bool.
-From Comet Require Import Base.Parse Check.C19 Check.C18 Check.VecHist Check.Codec Check.BM25Hist.
+From Comet Require Import Base.Parse Check.C19 Check.C18 Check.VecHist Check.Codec Check.BM25Hist Check.MetaHist.
 Import ListNotations.
 Open Scope Z_scope.
 
@@ -23,6 +23,8 @@ Definition dispatch (id : Z) (s : list Z) : list Z :=
   else if id =? 703 then run_P chk_reload_equiv s
   else if id =? 704 then run_P chk_prefixes s
   else if id =? 300 then run_P chk_bm25hist s
+  else if id =? 400 then run_P chk_metahist s
+  else if id =? 401 then run_P chk_bsi s
   else [8].
 
 (** used by cases.v: the list of case numbers whose verdict is not OK *)
